@@ -7,6 +7,7 @@ import (
 	"regexp"
 	"strconv"
 	"strings"
+	"unicode/utf8"
 
 	"github.com/metal-toolbox/audito-maldito/internal/verifharness/hutil"
 )
@@ -727,4 +728,100 @@ func genTokenReplaced(r *hutil.Rand, idx int) genLine {
 		}
 	}
 	return genLine{Form: "token_replaced", Line: line}
+}
+
+// ---------- ORDER as an input ----------
+
+// The processor is long-lived: what it does with a line must not depend on the line processed before it.  A generated
+// case is therefore, now and then, processed right AFTER a genuine line of each recognised kind in rotation (accepted
+// publickey / certificate / password, every failure form), with or without an unrecognised line in between; and every
+// other time the follower is a failure line whose client-chosen name embeds a complete message OF THE KIND JUST
+// PROCESSED (cut at sshd's 100-byte truncation of names): state remembered from the previous line (its kind, its
+// pattern, its fields) meets client text made to look like it.  Every line is judged on its own by the property's oracle.
+var precedingForms = append(append([]string{}, formNames...), "failed_password_invalid", "max_attempts_invalid")
+
+func genGenuine(r *hutil.Rand, form string) genLine {
+	switch form {
+	case "failed_password_invalid", "max_attempts_invalid":
+		addr := genAddr(r)
+		return clientNameLine(form, genUser(r), addr, genPort(r))
+	}
+	return genForm(r, form)
+}
+
+// cutName: sshd prints at most 100 bytes of a client-chosen name (%.100s); cut at a rune boundary, no newline.
+func cutName(s string) string {
+	s = strings.NewReplacer("\n", " ", "\r", " ").Replace(s)
+	if len(s) > 100 {
+		k := 100
+		for k > 0 && !utf8.RuneStart(s[k]) {
+			k--
+		}
+		s = s[:k]
+	}
+	return s
+}
+
+// genEmbeddingName: a client-chosen name that holds a complete (or, beyond 100 bytes, truncated) message of the given form.
+func genEmbeddingName(r *hutil.Rand, form string) string {
+	inner := genGenuine(r, form).Line
+	if r.Chance(1, 3) {
+		// short field values, so that more of the message survives the truncation
+		inner = shortMessage(r, form, inner)
+	}
+	return cutName(hutil.Pick(r, []string{"", "", "", "x ", "root ", "-"}) + inner)
+}
+
+// shortMessage: the accepted forms with the shortest field values (the whole message within 100 bytes).
+func shortMessage(r *hutil.Rand, form, dflt string) string {
+	u, a, p := hutil.Pick(r, []string{"root", "a", "x y"}), hutil.Pick(r, []string{"6.6.6.6", "::1", "h"}), hutil.Pick(r, []string{"1", "22", "65535"})
+	switch form {
+	case "accepted_key", "accepted_cert":
+		m := fmt.Sprintf("Accepted publickey for %s from %s port %s ssh2: %s SHA256:%s", u, a, p, hutil.Pick(r, []string{"RSA", "ED25519"}), hutil.Pick(r, []string{"abc", "x", "AbC+/9="}))
+		if form == "accepted_cert" {
+			m += fmt.Sprintf(" ID %s (serial %d) CA RSA SHA256:%s", hutil.Pick(r, []string{"k", "ops"}), r.Intn(10), hutil.Pick(r, []string{"d", "Zz0"}))
+		}
+		return m
+	case "accepted_password":
+		return fmt.Sprintf("Accepted password for %s from %s port %s ssh2", u, a, p)
+	}
+	return dflt
+}
+
+// genOrdered: the lines to process before `next` (first a genuine line of the k-th kind), and the follower: `next` itself or,
+// every other round of the kinds, a client-name line embedding a message of that kind (mode and PID token of `next` are kept).
+func genOrdered(r *hutil.Rand, k int, next caseDesc) ([]caseDesc, caseDesc, string) {
+	form := precedingForms[k%len(precedingForms)]
+	pd := caseDesc{Tok: genPidToken(r, false), Gen: genGenuine(r, form), Mode: runMode{WriteOK: true, Ready: true, Debug: k%3 == 2}}
+	if r.Chance(1, 3) && !strings.HasPrefix(pd.Gen.Line, " ") {
+		pd.Mode.Framed = true // as in the daemon, through the syslog ingester
+	}
+	if r.Chance(1, 4) {
+		pd.Tok = next.Tok // the same sshd process printed both lines
+	}
+	pd.seal()
+	prevs := []caseDesc{pd}
+	if r.Chance(1, 4) {
+		// a line the processor does not recognise in between (it must not matter either)
+		u := caseDesc{Tok: genPidToken(r, false), Gen: genGenericAuth(r, 2*r.Intn(len(hostileTokens))+1), Mode: runMode{WriteOK: true, Ready: true}}
+		if r.Bool() {
+			u.Gen = genLine{Form: "unrecognised", Line: hutil.Pick(r, []string{"Connection closed by 10.0.0.1 port 22 [preauth]", "pam_unix(sshd:session): session opened for user root by (uid=0)", "Received disconnect from ::1 port 5: 11: disconnected by user", "", "Disconnected from user root 10.0.0.9 port 1"})}
+		}
+		u.seal()
+		prevs = append(prevs, u)
+	}
+	follow := next
+	if (k/len(precedingForms))%2 == 0 {
+		addr := genAddr(r)
+		for strings.ContainsAny(addr, " ") {
+			addr = genAddr(r)
+		}
+		follow.Gen = clientNameLine(clientForms[(k+k/len(precedingForms)/2)%len(clientForms)], genEmbeddingName(r, form), addr, genPort(r))
+		follow.LineHex = ""
+		if follow.Mode.Framed && strings.Contains(follow.Tok, " ") {
+			follow.Mode.Framed, follow.Mode.Pad = false, 0
+		}
+		follow.seal()
+	}
+	return prevs, follow, form
 }
